@@ -342,6 +342,51 @@ def setMassFracsPrefix (a : α) (mf : NDens) : α :=
       let v := q.2 * rho * ph.K / ph.aw q.1
       if acc.2 && o.canSet acc.1 q.1 v then (o.setND acc.1 q.1 v, true) else (acc.1, false)) (a, true)).1
 
+/-! ### `adjustMassFrac` -/
+
+/-- `constantNuclides` / `adjustNuclides` / the remaining ones: `getNuclides()` intersected with the name lists -/
+def constSet (nucs holdNames : List Nuc) : List Nuc := nucs.filter (fun n => holdNames.contains n)
+def adjSet (nucs adjustNames : List Nuc) : List Nuc := nucs.filter (fun n => adjustNames.contains n)
+def othersSet (nucs adjustNames holdNames : List Nuc) : List Nuc :=
+  nucs.filter (fun n => !adjustNames.contains n && !holdNames.contains n)
+
+/-- the new fractions of the adjusted nuclides: scaled by `val / A`, or `val / numNucs` each when they have no mass -/
+def adjPart (nucs : List Nuc) (f : Nuc → Rat) (adjustNames : List Nuc) (val : Rat) : NDens :=
+  (adjSet nucs adjustNames).map (fun n =>
+    (n, if sumBy f (adjSet nucs adjustNames) = 0 then val / ((adjSet nucs adjustNames).length : Rat)
+        else f n * (val / sumBy f (adjSet nucs adjustNames))))
+
+/-- `factor2`: `1.0` when `othersSum` is zero, else `(1 - newA - constantSum) / othersSum` -/
+def adjustFactor2 (nucs : List Nuc) (f : Nuc → Rat) (adjustNames holdNames : List Nuc) (val : Rat) : Rat :=
+  if 1 - sumBy f (adjSet nucs adjustNames) - sumBy f (constSet nucs holdNames) = 0 then 1
+  else (1 - sumBy (fun q => q.2) (adjPart nucs f adjustNames val) - sumBy f (constSet nucs holdNames))
+        / (1 - sumBy f (adjSet nucs adjustNames) - sumBy f (constSet nucs holdNames))
+
+def othersPart (nucs : List Nuc) (f : Nuc → Rat) (adjustNames holdNames : List Nuc) (val : Rat) : NDens :=
+  (othersSet nucs adjustNames holdNames).map (fun n => (n, f n * adjustFactor2 nucs f adjustNames holdNames val))
+
+/-- the `newMassFracs` dict `adjustMassFrac` hands to `setMassFracs` (`none` = it raises before).
+`nucs` = `getNuclides()`, `f n` = `getMassFrac(n)`; `adjustNames` / `holdNames` are what
+`nucDir.getNuclideNames(nucName, elementSymbol)` returns for the nuclide/element to adjust / to hold constant
+(`holdNames = []` when nothing is held). Order: the adjusted nuclides, then the others (both in `getNuclides()`
+order; the code iterates a `set` for the first group — `setMassFracs` reads density and old fractions once, up
+front, so the order of its dict does not matter). -/
+def adjustDictOf (nucs : List Nuc) (f : Nuc → Rat) (adjustNames holdNames : List Nuc) (val : Rat) : Option NDens :=
+  if val > 1 ∨ val < 0 then none else
+  -- `abs(newA - val) > 1e-10` -> RuntimeError
+  if sumBy (fun q => q.2) (adjPart nucs f adjustNames val) - val > 1 / 10000000000 ∨
+      val - sumBy (fun q => q.2) (adjPart nucs f adjustNames val) > 1 / 10000000000 then none else
+  some (adjPart nucs f adjustNames val ++ othersPart nucs f adjustNames holdNames val)
+
+def adjustDict (a : α) (adjustNames holdNames : List Nuc) (val : Rat) : Option NDens :=
+  adjustDictOf (o.nucs a) (fun n => NDens.get (massFracs o ph a) n) adjustNames holdNames val
+
+/-- `adjustMassFrac(...)`: the dict above through `setMassFracs` (`none` = some call raises) -/
+def adjustMassFrac (a : α) (adjustNames holdNames : List Nuc) (val : Rat) : Option α :=
+  match adjustDict o ph a adjustNames holdNames val with
+  | none => none
+  | some d => if canSetMassFracs o ph a d then some (setMassFracs o ph a d) else none
+
 end Generic
 
 /-! ## component-level overrides -/
@@ -429,5 +474,111 @@ abbrev Core := Node Assem
 def blockOps (ph : Phys) : Ops Block := nodeOps (compOps ph)
 def assemOps (ph : Phys) : Ops Assem := nodeOps (blockOps ph)
 def coreOps (ph : Phys) : Ops Core := nodeOps (assemOps ph)
+
+/-! ## `HexBlock.getSymmetryFactor`, `HexGrid.overlapsWhichSymmetryLine`, `Assembly.getSymmetryFactor` -/
+
+inductive SymLine where
+  | center | deg0 | deg60 | deg120
+  deriving DecidableEq, Repr
+
+/-- `HexGrid.overlapsWhichSymmetryLine(indices)` (1/3-core view) -/
+def overlapsWhichSymmetryLine (i j : Int) : Option SymLine :=
+  if i = 0 ∧ j = 0 then some .center
+  else if i > 0 ∧ i = -2 * j then some .deg0
+  else if i = j ∧ i > 0 ∧ j > 0 then some .deg60
+  else if j = -2 * i ∧ j > 0 then some .deg120
+  else none
+
+/-- `HexBlock.getSymmetryFactor()`: 1 when the parent has no located grid symmetry; in a third-core periodic grid 3 at
+the centre, 2 on the 0- and 120-degree symmetry lines when the upper edge assemblies are modelled, else 1 -/
+def hexBlockSymmetryFactor (hasGridSymmetry thirdPeriodic : Bool) (i j : Int) (upperEdgePresent : Bool) : Rat :=
+  if !hasGridSymmetry then 1
+  else if thirdPeriodic then
+    if i = 0 ∧ j = 0 then 3
+    else match overlapsWhichSymmetryLine i j with
+      | some .deg0 => if upperEdgePresent then 2 else 1
+      | some .deg120 => if upperEdgePresent then 2 else 1
+      | _ => 1
+  else 1
+
+/-- `Assembly.getSymmetryFactor()`: `self[0].getSymmetryFactor()` -/
+def assemblySymmetryFactor (blockFactors : List Rat) : Option Rat := blockFactors.head?
+
+/-! ## composites of ARBITRARY depth (`composites.Composite` holding composites … holding components)
+
+`Composite.getVolume` (`sum(child.getVolume())`, divided by the symmetry factor in `Block.getVolume`),
+`ArmiObject.getNuclideNumberDensities` (children weighted by `c.getVolume() / c.parent.getSymmetryFactor()`),
+`Composite.getMass` (`sum(c.getMass())`) on a tree of any shape. -/
+
+inductive Tree where
+  | leaf (c : Comp)
+  | node (sym : Rat) (kids : List Tree)
+
+mutual
+/-- `getVolume()` -/
+def Tree.vol : Tree → Rat
+  | .leaf c => c.vol
+  | .node sym kids => Tree.volList kids / sym
+def Tree.volList : List Tree → Rat
+  | [] => 0
+  | t :: ts => t.vol + Tree.volList ts
+end
+
+/-- `volumes.sum()`: `Σ c.getVolume() / self.getSymmetryFactor()` -/
+def Tree.wvolList (sym : Rat) : List Tree → Rat
+  | [] => 0
+  | t :: ts => t.vol / sym + Tree.wvolList sym ts
+
+mutual
+/-- `getNumberDensity(n)`: the component's own density; a composite: `volumes.dot(densities) / totalVol`
+(0 when `totalVol == 0.0`) -/
+def Tree.nd (n : Nuc) : Tree → Rat
+  | .leaf c => c.nd.get n
+  | .node sym kids => if Tree.wvolList sym kids = 0 then 0 else Tree.wndList n sym kids / Tree.wvolList sym kids
+def Tree.wndList (n : Nuc) (sym : Rat) : List Tree → Rat
+  | [] => 0
+  | t :: ts => t.vol / sym * t.nd n + Tree.wndList n sym ts
+end
+
+mutual
+/-- atoms (× barn) counted on the LEAVES: `Σ_c N_c V_c / Π (symmetry factors on the way up)` -/
+def Tree.leafAtoms (n : Nuc) : Tree → Rat
+  | .leaf c => c.vol * c.nd.get n
+  | .node sym kids => Tree.leafAtomsList n kids / sym
+def Tree.leafAtomsList (n : Nuc) : List Tree → Rat
+  | [] => 0
+  | t :: ts => t.leafAtoms n + Tree.leafAtomsList n ts
+end
+
+mutual
+/-- `getMass(n)`: a component's own (`Comp.mass`), a composite's `sum(c.getMass(n))` -/
+def Tree.mass (ph : Phys) (n : Nuc) : Tree → Rat
+  | .leaf c => c.mass ph n
+  | .node _ kids => Tree.massList ph n kids
+def Tree.massList (ph : Phys) (n : Nuc) : List Tree → Rat
+  | [] => 0
+  | t :: ts => t.mass ph n + Tree.massList ph n ts
+end
+
+mutual
+/-- every composite has a non-zero symmetry factor and a non-zero volume -/
+def Tree.WF : Tree → Prop
+  | .leaf _ => True
+  | .node sym kids => sym ≠ 0 ∧ Tree.volList kids ≠ 0 ∧ Tree.WFList kids
+def Tree.WFList : List Tree → Prop
+  | [] => True
+  | t :: ts => t.WF ∧ Tree.WFList ts
+end
+
+mutual
+/-- every component carries the symmetry factor of the composite that holds it (`self.parent.getSymmetryFactor()`);
+composites that hold composites have factor 1 (only blocks are cut) -/
+def Tree.SymOK : Rat → Tree → Prop
+  | psym, .leaf c => c.psym = psym
+  | psym, .node sym kids => psym = 1 ∧ Tree.SymOKList sym kids
+def Tree.SymOKList : Rat → List Tree → Prop
+  | _, [] => True
+  | sym, t :: ts => t.SymOK sym ∧ Tree.SymOKList sym ts
+end
 
 end ArmiVerif.Compo
